@@ -284,7 +284,7 @@ func d12Trigger(stack []string) bool {
 // HTTP scenarios: a private transport per scenario; retried responses, hedged losers, merged contexts
 
 type httpScenario struct {
-	ReqCtx   string   `json:"req_ctx"`  // background cancellable values
+	ReqCtx   string   `json:"req_ctx"`  // background cancellable values custom (a hand-written context.Context)
 	ExecCtx  string   `json:"exec_ctx"` // none cancellable custom (a hand-written context.Context)
 	Stack    []string `json:"stack"`    // retry timeout hedge-real
 	Statuses []int    `json:"statuses"` // per attempt
@@ -308,6 +308,7 @@ type flakySeeker struct {
 }
 
 func (f *flakySeeker) Read(p []byte) (int, error) { return f.r.Read(p) }
+func (f *flakySeeker) Close() error               { return nil } // a ReadCloser, so that it becomes the request's Body as it is
 func (f *flakySeeker) Seek(off int64, whence int) (int64, error) {
 	f.seeks++
 	if f.seeks > 1 {
@@ -392,6 +393,11 @@ func runHTTP(sc httpScenario) (cleanup func()) {
 			reqCtx, cancelReq = context.WithCancel(reqCtx)
 		case "values":
 			reqCtx = context.WithValue(reqCtx, struct{}{}, 1)
+		case "custom":
+			// a hand-written context: whatever the adapter derives from it must be released when the attempt is over
+			lc, end := newLifecycleCtx()
+			reqCtx = lc
+			cancels = append(cancels, end)
 		}
 		var body io.Reader
 		if sc.BodySize > 0 {
@@ -437,7 +443,7 @@ func runHTTP(sc httpScenario) (cleanup func()) {
 
 func genHTTP(t *rapid.T) httpScenario {
 	sc := httpScenario{
-		ReqCtx:   rapid.SampledFrom([]string{"background", "cancellable", "values"}).Draw(t, "reqCtx"),
+		ReqCtx:   rapid.SampledFrom([]string{"background", "cancellable", "values", "custom"}).Draw(t, "reqCtx"),
 		ExecCtx:  rapid.SampledFrom([]string{"none", "cancellable", "custom"}).Draw(t, "execCtx"),
 		RespSize: rapid.SampledFrom([]int{0, 10, 5000}).Draw(t, "respSize"),
 		ReadBody: rapid.Bool().Draw(t, "readBody"),
